@@ -77,7 +77,7 @@ checks = {
    category="fault_enumeration", design_ref="DESIGN.md §2.5, §3 C04",
    technique="exhaustive crash-point enumeration: the real writer process (real store on real SQLite files) is SIGKILLed by strace fault injection at EVERY state-changing system call on the store files (first-time initialisation, each write transaction, shutdown/checkpoint), then the real recovery path runs on the surviving files and is compared with the reference states of the acknowledged prefix",
    text="For every kill point N: the store opens again, root id and signing key are those announced before the crash (a pre-crash token validates), the recovered content equals the reference state after k or k+1 requests where k = acknowledgements received before death (no acknowledged write lost, each batch all-or-nothing), all hashes are consistent (C03 recomputation), the instance accepts a write, and identity is stable over a further restart.",
-   note="Process death only (page cache survives); wal-index (mmap) intermediate states are not separate crash points; strace counts injections per thread, so the writer pins the phase under test to the traced main thread (two writer modes). Quick: histories 0 (all transactional elements), 1 (mirror / diamond), 3 (120-point batch, 60-point overwrite) and 4 (9 kB texts: overflow page chains written, rewritten, shortened); thorough: all five histories x both modes x configured / generated root id."),
+   note="Process death only (page cache survives); wal-index (mmap) intermediate states are not separate crash points; strace counts injections per thread, so the writer pins the phase under test to the traced main thread (two writer modes). Quick: histories 0 (all transactional elements), 1 (mirror / diamond), 3 (120-point batch, 60-point overwrite) 4 (9 kB texts: overflow page chains written, rewritten, shortened) and 5 (a second node placed below the root sentinel at run time: the instance root switches; the token key must survive); thorough: all six histories x both modes x configured / generated root id."),
  "C13": dict(
    category="model_checking", design_ref="DESIGN.md §3 C13",
    technique="stateless model checking of the real RuleClient.Run inside testing/synctest bubbles (virtual clock, quiescence by synctest.Wait): exhaustive enumeration of rule configurations x sequences of point batches / clock advances, every publication of the rule compared with a reference interpreter after each batch",
